@@ -11,7 +11,7 @@ from ..typeflow import RAW, TypeInfer, mismatch, parse_annotation, show
 from .c12 import has_unknown, SETTING_KEYS, OpaqueHelper, agree, source_type
 from .c13 import ancestors, stmt_of
 from .common import loc
-from .jsonio import ReaderRecord, WriterRecord, check_typed_fields, check_writer_schema, load_schemas
+from .jsonio import ReaderRecord, WriterRecord, check_converters, check_typed_fields, check_writer_schema, load_schemas
 from .pbnio import VALUE_ALPHABET_SAMPLES, check_line_source, fold_parse_board, parser_constants, separator_pattern
 
 
@@ -30,41 +30,51 @@ def run(chk):
     # ---- R1 JSON ---------------------------------------------------------------------------------------------------------
     from .jsonfile import settings_rule
     settings_rule(chk, 'C17.R7')
-    rec = WriterRecord(repo, 'JsonBoardSettingWriter', 'C17.R1', chk=chk)
-    check_writer_schema(chk, 'C17.R1', rec, 'board_setting_format.schema.json', ['properties', 'board_settings', 'items'], schemas)
-    setting = ReaderRecord(repo, 'convert_board_setting', 'BoardSetting', 'C17.R1')
-    check_typed_fields(chk, 'C17.R1', setting)
-    from .jsonio import check_truthiness
-    check_truthiness(chk, 'C17.R1', repo)
-    from .jsonio import check_converters
-    check_converters(chk, 'C17.R1', repo, setting.m, setting.qual, setting.fields, setting.annots)
-    for fld, expr in setting.fields.items():
-        got, want = setting.deps(expr), SETTING_KEYS.get(fld)
-        chk.require(got == want, 'C17.R1', repo.where(setting.m, expr), setting.qual, f'{fld} <- keys {sorted(got)}',
-                    f'setting field {fld} is computed from {sorted(want or [])}', f'setting field `{fld}` is computed from {sorted(got)}, written under {sorted(want or [])}')
-    written = set(rec.keys) | set(rec.optional)
-    chk.require(written == setting.all_keys(), 'C17.R1', setting.where, setting.qual, f'keys written {sorted(written)} / read {sorted(setting.all_keys())}',
-                'the settings writer and reader use the same keys', f'writer keys {sorted(written)} != reader keys {sorted(setting.all_keys())}')
-    need = setting.all_keys() - setting.conditional_keys()
-    chk.require(need <= set(rec.keys), 'C17.R1', setting.where, setting.qual, f'unconditional reader keys {sorted(need)}',
-                'keys the reader needs are always written', f'reader needs {sorted(need - set(rec.keys))} which are not always written')
-    key_field = {'board_id': 'board_id', 'deal': 'hands', 'dealer': 'dealer', 'vulnerability': 'vul', 'dda': 'dda'}
-    for k in rec.keys + list(rec.optional):
-        v = rec.value(k)
-        if k not in key_field:
-            chk.fail('C17.R1', repo.where(rec.mod, v), rec.qual, f"'{k}'", f'key {k!r} is written but the settings reader has no field for it')
-            continue
-        try:
-            src = source_type(repo, rec.ti, v)
-        except OpaqueHelper as e:
-            chk.note(f'key {k!r}: {e.why} - read-back equality of this key is decided by the whole-document rule C17.R7')
-            continue
-        ann = setting.annots[key_field[k]]
-        if has_unknown(src):
-            chk.note(f'key {k!r}: the type of `{ast.unparse(v)[:60]}` cannot be inferred - read-back equality of this key is decided by the whole-document rule C17.R7')
-            continue
-        chk.require(agree(repo, src, ann), 'C17.R1', repo.where(rec.mod, v), rec.qual, f"'{k}': {ast.unparse(v)[:60]}",
-                    f'key {k!r} serialises what field {key_field[k]} declares', f'key {k!r} serialises {src}, field `{key_field[k]}` is {show(ann)}')
+    def json_per_expression():
+        rec = WriterRecord(repo, 'JsonBoardSettingWriter', 'C17.R1', chk=chk)
+        check_writer_schema(chk, 'C17.R1', rec, 'board_setting_format.schema.json', ['properties', 'board_settings', 'items'], schemas)
+        setting = ReaderRecord(repo, 'convert_board_setting', 'BoardSetting', 'C17.R1')
+        check_typed_fields(chk, 'C17.R1', setting)
+        from .jsonio import check_truthiness
+        check_truthiness(chk, 'C17.R1', repo)
+        from .jsonio import check_converters
+        check_converters(chk, 'C17.R1', repo, setting.m, setting.qual, setting.fields, setting.annots)
+        for fld, expr in setting.fields.items():
+            got, want = setting.deps(expr), SETTING_KEYS.get(fld)
+            chk.require(got == want, 'C17.R1', repo.where(setting.m, expr), setting.qual, f'{fld} <- keys {sorted(got)}',
+                        f'setting field {fld} is computed from {sorted(want or [])}', f'setting field `{fld}` is computed from {sorted(got)}, written under {sorted(want or [])}')
+        written = set(rec.keys) | set(rec.optional)
+        chk.require(written == setting.all_keys(), 'C17.R1', setting.where, setting.qual, f'keys written {sorted(written)} / read {sorted(setting.all_keys())}',
+                    'the settings writer and reader use the same keys', f'writer keys {sorted(written)} != reader keys {sorted(setting.all_keys())}')
+        need = setting.all_keys() - setting.conditional_keys()
+        chk.require(need <= set(rec.keys), 'C17.R1', setting.where, setting.qual, f'unconditional reader keys {sorted(need)}',
+                    'keys the reader needs are always written', f'reader needs {sorted(need - set(rec.keys))} which are not always written')
+        key_field = {'board_id': 'board_id', 'deal': 'hands', 'dealer': 'dealer', 'vulnerability': 'vul', 'dda': 'dda'}
+        for k in rec.keys + list(rec.optional):
+            v = rec.value(k)
+            if k not in key_field:
+                chk.fail('C17.R1', repo.where(rec.mod, v), rec.qual, f"'{k}'", f'key {k!r} is written but the settings reader has no field for it')
+                continue
+            try:
+                src = source_type(repo, rec.ti, v)
+            except OpaqueHelper as e:
+                chk.note(f'key {k!r}: {e.why} - read-back equality of this key is decided by the whole-document rule C17.R7')
+                continue
+            ann = setting.annots[key_field[k]]
+            if has_unknown(src):
+                chk.note(f'key {k!r}: the type of `{ast.unparse(v)[:60]}` cannot be inferred - read-back equality of this key is decided by the whole-document rule C17.R7')
+                continue
+            chk.require(agree(repo, src, ann), 'C17.R1', repo.where(rec.mod, v), rec.qual, f"'{k}': {ast.unparse(v)[:60]}",
+                        f'key {k!r} serialises what field {key_field[k]} declares', f'key {k!r} serialises {src}, field `{key_field[k]}` is {show(ann)}')
+
+
+    try:
+        json_per_expression()
+    except AnalysisError as e_json:
+        if chk.findings:
+            raise
+        chk.note(f'C17.R1 per-expression rules of the JSON settings pair not evaluated completely ({e_json.why[:160]}); read-back of every field is decided by the '
+                 f'whole-document rule C17.R7')
 
     # ---- R2..R4 parse_stream ------------------------------------------------------------------------------------------------
     from .pbnfile import reader_rule
